@@ -82,6 +82,13 @@ func ParseReadHoldingRegistersRequestTCP(data []byte) (*ReadHoldingRegistersRequ
 		return nil, err
 	}
 	unitID := data[6]
+	if len(data) < 12 {
+		tmpErr := NewErrorParseTCP(ErrIllegalDataValue, "received data length too short to be valid packet")
+		tmpErr.Packet.TransactionID = header.TransactionID
+		tmpErr.Packet.UnitID = unitID
+		tmpErr.Packet.Function = FunctionReadHoldingRegisters
+		return nil, tmpErr
+	}
 	if data[7] != FunctionReadHoldingRegisters {
 		tmpErr := NewErrorParseTCP(ErrIllegalFunction, "received function code in packet is not 0x03")
 		tmpErr.Packet.TransactionID = header.TransactionID
